@@ -71,6 +71,22 @@ FineHist == HistOf({ i \in EvIdx : Covered(c, evB[i].bi) }, InB, EvN)
 CoarseHist == HistOf({ i \in EvIdx : Covered(o, evB[i].bo) }, OutB, EvN)
 \* fine histogram pushed through SSRBMap
 RebinHist == HistOf({ i \in EvIdx : Covered(c, evB[i].bi) /\ evB[i].mb # NoBin }, MapB, EvN)
+\* Weaker relation used where the TOF part of the rebinning is not determined by the geometry (even
+\* tofComb): every count goes to an output bin whose k-interval (edges included) contains the centre of its
+\* input TOF bin, spatial part as SSRBMapS.  lower: events that can only be in b, upper: events that may be.
+Cnt(I) == SumOver(I, EvN)
+MayBeIn(i, b) == /\ Covered(c, evB[i].bi) /\ evB[i].ms # NoBin
+                 /\ [b EXCEPT !.tof = 0] = evB[i].ms /\ b.tof \in evB[i].cands
+MustBeIn(i, b) == MayBeIn(i, b) /\ evB[i].cert
+PermOk(nz) ==
+  /\ Cardinality({ BinOfRow(nz[j]) : j \in 1..Len(nz) }) = Len(nz)
+  /\ \A j \in 1..Len(nz) :
+       LET b == BinOfRow(nz[j]) IN
+       /\ nz[j][6] >= 16 * Cnt({ i \in EvIdx : MustBeIn(i, b) })
+       /\ nz[j][6] <= 16 * Cnt({ i \in EvIdx : MayBeIn(i, b) })
+  /\ \A i \in EvIdx : (Covered(c, evB[i].bi) /\ evB[i].ms # NoBin /\ evB[i].cert) =>
+        \E j \in 1..Len(nz) : MustBeIn(i, BinOfRow(nz[j]))
+  /\ Total(NzSet(nz)) <= fineTot
 
 EvOk(r) == \A i \in 1..Len(r.ev) :
              LET e == r.ev[i] IN
@@ -99,20 +115,28 @@ Explains(r) ==
          /\ Cardinality(NzSet(r.nz)) = Len(r.nz)
          /\ NzSet(r.nz) = Scale(CoarseHist, 16)
     [] r.e = "Rebin" /\ ~r.norm ->
-         /\ Cardinality(NzSet(r.nz)) = Len(r.nz)
-         \* the counts of every bin of the input go to the bin SSRBMap names
-         /\ NzSet(r.nz) = Scale(RebinHist, 16)
-         \* "histogramming at the coarse sampling equals histogramming finely and then rebinning"
-         \* (observation against observation; when no bins are added and the TOF bins nest)
-         /\ (p.trim >= 0 /\ p.tofComb % 2 = 1) => NzSet(r.nz) = coarse
-         \* "total counts are conserved when no range is trimmed"
-         /\ (NothingTrimmed(c, p) /\ p.tofComb % 2 = 1) => Total(NzSet(r.nz)) = fineTot
-    [] r.e = "Rebin" /\ r.norm -> NormOk(r.nz)
+         IF TofNests(c, o)
+         THEN /\ Cardinality(NzSet(r.nz)) = Len(r.nz)
+              \* the counts of every bin of the input go to the bin SSRBMap names
+              /\ NzSet(r.nz) = Scale(RebinHist, 16)
+              \* "histogramming at the coarse sampling equals histogramming finely and then rebinning"
+              \* (observation against observation; when no bins are added)
+              /\ p.trim >= 0 => NzSet(r.nz) = coarse
+              \* "total counts are conserved when no range is trimmed"
+              /\ NothingTrimmed(c, p) => Total(NzSet(r.nz)) = fineTot
+         ELSE PermOk(r.nz)
+    [] r.e = "Rebin" /\ r.norm -> (p.tofComb % 2 = 1) => NormOk(r.nz)
     [] r.e = "End" -> ~r.err
     [] OTHER -> FALSE
 
-\* no finding is known for this part: every unexplained line is new
-Classify(r) == "new"
+\* An unexplained line is attributed to a known finding only by its signature (known_findings.jsonl):
+\* C15-eventof: SSRB with an even num_tof_bins_to_combine on data whose coarse TOF bins ARE unions of fine ones:
+\* the data-rebinning SSRB decides by comparing floating-point k with the bin edges, so an input TOF bin centred on
+\* an output edge goes to the side the comparison (and its rounding) happens to give, not to the bin the
+\* output geometry assigns; everything else about the line must still be explained (PermOk).
+Classify(r) ==
+  IF r.e = "Rebin" /\ ~r.norm /\ c # NoCfg /\ o # NoCfg /\ p.tofComb % 2 = 0 /\ TofNests(c, o) /\ PermOk(r.nz) THEN "C15-eventof"
+  ELSE "new"
 
 Init == l = 1 /\ c = NoCfg /\ p = [segComb |-> 0] /\ o = NoCfg /\ ipN = 0 /\ ipT = <<>> /\ evB = <<>> /\ fineTot = 0 /\ coarse = {} /\ bad = <<>>
 Next == /\ l <= Len(TraceLog)
@@ -130,12 +154,18 @@ Next == /\ l <= Len(TraceLog)
                                       LET q == << r.ev[i][1], r.ev[i][2], r.ev[i][3], r.ev[i][4], r.ev[i][5] >>
                                           bi == BinOfT(c, ipT, q) IN
                                       [bi |-> bi, bo |-> BinOfT(o, ipT, q),
-                                       mb |-> IF Covered(c, bi) THEN SSRBMap(c, o, p, bi) ELSE NoBin, n |-> r.ev[i][6]] ]
+                                       mb |-> IF Covered(c, bi) THEN SSRBMap(c, o, p, bi) ELSE NoBin,
+                                       ms |-> IF Covered(c, bi) THEN SSRBMapS(c, o, p, bi) ELSE NoBin,
+                                       cands |-> IF Covered(c, bi) THEN TofCands(c, o, bi.tof) ELSE {},
+                                       cert |-> Covered(c, bi) /\ TofCertain(c, o, bi.tof),
+                                       n |-> r.ev[i][6]] ]
                              ELSE evB
                    /\ fineTot' = IF r.e = "Hist" /\ r.which = "fine" THEN Total(NzSet(r.nz)) ELSE fineTot
                    /\ coarse' = IF r.e = "Hist" /\ r.which = "coarse" THEN NzSet(r.nz) ELSE coarse
            /\ bad' = IF okr THEN bad
-                     ELSE IF Len(bad) < 500 THEN Append(bad, <<l, Classify(r)>>) ELSE bad
+                     ELSE LET cls == Classify(r) IN
+                          IF cls = "new" THEN (IF Len(SelectSeq(bad, LAMBDA x : x[2] = "new")) < 500 THEN Append(bad, <<l, cls>>) ELSE bad)
+                          ELSE (IF Len(SelectSeq(bad, LAMBDA x : x[2] = cls)) < 20 THEN Append(bad, <<l, cls>>) ELSE bad)
         /\ l' = l + 1
 Spec == Init /\ [][Next]_vars
 
